@@ -204,7 +204,7 @@ def getitem {ν α : Type} (v : Vec ν α) : Key → Res (Item ν α)
     if m = 0 ∧ v.data.isEmpty then .error .index else .error .key
   | .vec dt es =>
     match dt with
-    | none => .error .attr                       -- `key.schema().kind` on an untyped empty Vector
+    | none => .error .type                       -- an untyped empty Vector (`key.schema() is None`) is no usable key (1b5354c)
     | some d =>
       if d.kind = .bool ∧ d.nullable = false then maskGet v (es.map KElem.truthy)
       else if d.kind = .int ∧ d.nullable = false then intsGet v es
@@ -248,7 +248,7 @@ def selIndices (n : Nat) : Key → Res (List Nat)
     else if es ≠ [] ∧ es.all KElem.isInt = true then
       mapRes (normElem n) es
     else .error .type
-  | .vec none _ => .error .attr
+  | .vec none _ => .error .type
   | _ => .error .type
 
 /-- a key that selects rows (everything but int and tuples) -/
@@ -447,7 +447,7 @@ def getitemTab {ν α : Type} [DecidableEq ν] (ops : NameOps ν) (t : Tab ν α
     | _ => rmap .row (mapRes (fun col => getIdx col.data i) t.cols)
   | .row (.vec dt es) =>
     match dt with
-    | none => .error .attr
+    | none => .ok .none                          -- falls off the end of `Table.__getitem__` (an untyped empty Vector)
     | some d =>
       if d.kind = .bool ∧ d.nullable = false then maskRows t (.vec dt es) es.length
       else if d.kind = .int ∧ d.nullable = false then rmap .tab (rowsel t (.vec dt es))
